@@ -13,6 +13,7 @@ R20.index   (cont.) a local declared outside the loop is assigned in every itera
 R20.same    the generic VectorizedOperationN / VoidOperationN bodies apply Op::apply once per index to every
             accessor at [v] (masked in-place variant: the argument at the raw index of v)
 R20.same    (cont.) every op_* functor of the operator / vector / quaternion / matrix families is one forwarding expression
+            whose structure (operator opcode, operand order, callee - emitted by tools/pyrules) is the operation its name denotes
 R20.len     at every dispatchTask(task, n) every array handed to the task is covered by a dominating
             match_dimension / measure_arguments / len() == n test that throws, is the array n was taken from, or was
             freshly constructed with n elements; measure_arguments measures every argument and match_lengths throws
